@@ -562,3 +562,57 @@ Proof. intros F. apply run_ev_stays_db0; [exact F|reflexivity]. Qed.
 Theorem disconnect_frame s c : sdbs (srv_disconnect s c) = sdbs s /\
   forall c', c' <> c -> sel_lookup c' (ssel (srv_disconnect s c)) = sel_lookup c' (ssel s).
 Proof. split; [reflexivity|]. intros c' N. apply sel_lookup_forget_other. exact N. Qed.
+
+(* ------------------------------------------------------------------ cluster mode: one database *)
+(* In cluster mode every command, SELECT included, is executed by handleClusterCommits on the one
+   Manager all connections share: the selection is a single, shared field.  That is the program
+   run with every connection id collapsed into one: *)
+Definition shared_selection (p : list sstep) : list sstep :=
+  map (fun x => mkSStep 0 (ss_now x) (ss_nowms x) (ss_args x) (ss_hint x)) p.
+
+(* with exactly one database every selection is 0 ... *)
+Lemma wf1_sel0 s c : srv_wf 1 s -> sel_lookup c (ssel s) = 0%nat.
+Proof. intros [_ S]. specialize (S c). lia. Qed.
+
+(* ... so the reply and the databases after a step do not depend on who issues it *)
+Lemma step_one_database s1 s2 c1 c2 now nowms args hint :
+  srv_wf 1 s1 -> srv_wf 1 s2 -> sdbs s1 = sdbs s2 ->
+  fst (srv_exec s1 c1 now nowms args hint) = fst (srv_exec s2 c2 now nowms args hint) /\
+  sdbs (snd (srv_exec s1 c1 now nowms args hint)) = sdbs (snd (srv_exec s2 c2 now nowms args hint)).
+Proof.
+  intros W1 W2 E. destruct args as [|nm rest]; [split; [reflexivity|exact E]|].
+  destruct (is_select (nm :: rest)) eqn:ES.
+  - rewrite !srv_exec_select by exact ES. rewrite !exec_select_dbs. split; [|exact E].
+    unfold exec_select. destruct rest as [|a [|b r]]; try reflexivity.
+    destruct (atoi64 a); [|reflexivity]. rewrite E.
+    destruct ((0 <=? z) && (z <? zlength (sdbs s2))); reflexivity.
+  - rewrite !srv_exec_other by (try exact ES; discriminate).
+    rewrite (wf1_sel0 s1 c1 W1), (wf1_sel0 s2 c2 W2), E.
+    destruct (nth_error (sdbs s2) 0); [|split; [reflexivity|exact E]].
+    cbn [fst snd sdbs]. split; reflexivity.
+Qed.
+
+(* A server with exactly one database -- the configuration of every cluster node -- answers any
+   interleaved program of any number of connections exactly as the server that keeps one shared
+   selection for all of them: no connection can move another. *)
+Theorem cluster_single_database p : forall s1 s2, srv_wf 1 s1 -> srv_wf 1 s2 -> sdbs s1 = sdbs s2 ->
+  fst (srv_run s1 p) = fst (srv_run s2 (shared_selection p)).
+Proof.
+  induction p as [|x r IH]; intros s1 s2 W1 W2 E; [reflexivity|].
+  cbn [shared_selection map]. rewrite !srv_run_cons. cbn [fst ss_conn ss_now ss_nowms ss_args ss_hint].
+  destruct (step_one_database s1 s2 (ss_conn x) 0 (ss_now x) (ss_nowms x) (ss_args x) (ss_hint x) W1 W2 E) as [Er Ed].
+  rewrite Er. f_equal. apply IH; try (apply srv_exec_wf; assumption). exact Ed.
+Qed.
+
+(* and SELECT i for i <> 0 is refused on it, leaving the state unchanged *)
+Theorem select_nonzero_refused_one_database s conn now nowms c arg hint :
+  srv_wf 1 s -> lower c = B "select" -> atoi64 arg <> Some 0 ->
+  srv_exec s conn now nowms [c; arg] hint = (err_other, s).
+Proof.
+  intros [L _] E N. rewrite srv_exec_select by (unfold is_select; rewrite E; reflexivity).
+  unfold exec_select. destruct (atoi64 arg) as [i|]; [|reflexivity].
+  rewrite zlength_nat, L.
+  destruct (Z.eq_dec i 0) as [->|Ni]; [congruence|].
+  replace ((0 <=? i) && (i <? Z.of_nat 1)) with false; [reflexivity|].
+  symmetry. apply andb_false_iff. destruct (Z.leb_spec 0 i); [right; apply Z.ltb_ge; lia|left; reflexivity].
+Qed.
